@@ -378,6 +378,43 @@ def programs(scope, size, level):
         fin = [x, y, ("add", x, y)]
         groups = nonneg + nonpos + pos + neg + zero + fin
         out = [(k, a, b) for k in proggen.COMPARE for a in groups for b in groups]
+    elif scope == "T":  # sign algebra: every operation over two sign-definite operands, compared with 0 and with sign-definite values
+        x, y = ("x",), ("y",)
+        cls = {
+            "nonneg": [("absolute", x), ("square", y)],
+            "nonpos": [("negative", ("absolute", y)), ("negative", ("square", x))],
+            "pos": [("add", ("absolute", x), ("c", 1)), ("c", 1)],
+            "neg": [("negative", ("add", ("square", y), ("c", 1))), ("c", -1)],
+            "zero": [("c", 0), ("c", -0.0)],
+            "any": [x, y],
+        }
+        reps = [q for v in cls.values() for q in v]
+        ops = ["add", "subtract", "multiply", "minimum", "maximum"] + (["divide"] if size >= 2 else [])
+        comps = [(k, a, b) for k in ops for a in reps for b in reps]
+        comps += [("sqrt", ("add", a, b)) for a in cls["nonneg"] + cls["pos"] for b in cls["nonneg"] + cls["pos"]]
+        against = [("c", 0), ("absolute", x), ("negative", ("absolute", x)), ("c", 1), ("c", -1)]
+        out = []
+        for k in proggen.COMPARE:
+            for c in comps:
+                for b in against:
+                    out.append((k, c, b))
+                out.append((k, ("c", 0), c))
+    elif scope == "L":  # logic laws: every and/or/xor/not tree of operator depth <= 2 over shared atoms; selects on them; nested selects
+        x, y = ("x",), ("y",)
+        atoms = [("lt", x, y), ("le", y, ("c", 0)), ("eq", x, ("c", 0)), ("b", True), ("b", False)]
+        T0 = list(atoms)
+        T1 = [("logical_not", a) for a in T0] + [(k, a, b) for k in proggen.LOGIC2 for a in T0 for b in T0]
+        T01 = T0 + T1
+        T2 = [("logical_not", a) for a in T1] + [(k, a, b) for k in proggen.LOGIC2 for a in T01 for b in T01 if (a in T1 or b in T1)]
+        out = T1 + T2
+        if size >= 2:
+            out = out + [("select", c, x, y) for c in T1 + T2]
+        else:
+            out = out + [("select", c, x, y) for c in T1]
+        for p_ in atoms[:3]:
+            for c in T01:
+                inner = ("select", c, x, y)
+                out += [("select", p_, inner, y), ("select", p_, x, inner), ("select", c, ("select", p_, x, y), y), ("select", c, x, ("select", p_, y, x))]
     elif scope == "D":
         Ld = [q for q in proggen.leaves(2) if q[0] in ("c", "n")]
         out = []
@@ -507,7 +544,7 @@ def run(run):
 
     plan = []
     for cfg in ("float32", "float"):
-        plan += [("S", 0, 0, cfg), ("A", 1, 2, cfg), ("A", 2, 1 if thorough else 0, cfg), ("X", 2, 0, cfg), ("B", 3, 0, cfg), ("D", 1, 2, cfg), ("C", 2, 2, cfg)]
+        plan += [("S", 0, 0, cfg), ("T", 2 if thorough else 1, 0, cfg), ("L", 2 if thorough else 1, 0, cfg), ("A", 1, 2, cfg), ("A", 2, 1 if thorough else 0, cfg), ("X", 2, 0, cfg), ("B", 3, 0, cfg), ("D", 1, 2, cfg), ("C", 2, 2, cfg)]
         if thorough:
             plan += [("C", 3, 1, cfg), ("D", 2, 2, cfg)]
     tasks = []
@@ -526,7 +563,7 @@ def run(run):
     run.rule = (
         "every expression tree of the stated sizes over the kinds negative/positive/absolute/sign/sqrt/square/add/subtract/multiply/divide/minimum/maximum/6 comparisons/"
         "logical and,or,xor,not/select with leaves x, y, numeric (0, 1, -1, 2, 0.5, -0.0, ...) and named constants, booleans, in a float32-typed and a generic-float "
-        "Context (scopes A, B, C, D as listed in counters), each rewritten and compared with the original on the full 18x18 assignment grid (flag-free points of "
+        "Context (scopes A, B, C, D as listed in counters; S/T: every comparison between sign-definite builders and every operation over two sign-definite operands compared with 0/sign-definite values; L: every and/or/xor/not tree of depth <= 2 over shared atoms, selects on them and nested selects), each rewritten and compared with the original on the full 18x18 assignment grid (flag-free points of "
         "the original) and exactly on a rational grid (9x9 thorough, 5x5 quick); shipped algorithms before/after fa.rewrite on lattices; non-trivial = programs the rewriter changed"
     )
     run.exhaustive = True
